@@ -191,7 +191,8 @@ EXTRA = {
     "C04": _ACC + "`started` of both computers is the `_started` flag the method contracts set and reset.",
     "C05": _GAMMA + _ACC + "centers_hz (the inner vertices in order / the centres the constructor laid out), supports_hz (pair k = vertices k and k+2), num_filts, "
                   "sampling_rate, scaled_l2_norm, erb, order of all four banks.",
-    "C07": _ACC + "is_real, is_analytic, is_zero_phase, supports, supports_hz of all four banks and the base class's supports_ms." + _GAMMA,
+    "C07": _ACC + "is_real, is_analytic, is_zero_phase, supports, supports_hz of all four banks and the base class's supports_ms." + _GAMMA + " ComplexGammatoneFilterBank.get_impulse_response: exactly "
+           "`width` samples and every aliased store inside the buffer, for any number of periods.",
     "C06": " ComplexGammatoneFilterBank.get_frequency_response is under contract for the documented length (with and without half) and the shape "
            "safety of its vectorised accumulation (bin grid of exactly dft_size entries, one _H value per grid point, arrays of equal length added); "
            "its values stay bounded.",
